@@ -126,7 +126,8 @@ def inverse_identity(check: Check) -> None:
 
         composed = subst(m_term)
         atoms: dict = {ZERO_: "pinned", Y: "position", H: "position"}
-        grids: dict = {ZERO_: [Fraction(0)], H: [Fraction(204)], Y: [Fraction(101), Fraction(102), Fraction(103)]}
+        # heights: one far above every parameter, and one within the library's comparison tolerance of 1 (a tolerance test on the height is not h == 1)
+        grids: dict = {ZERO_: [Fraction(0)], H: [Fraction(204), Fraction(4097, 4096)], Y: [Fraction(101), Fraction(102), Fraction(103), Fraction(1, 4), Fraction(1, 2), Fraction(3, 4)]}
         for prm in c03.shape_params(c):
             a = ("attr", ("param", "self"), prm)
             atoms[a] = "nonzero" if prm in c03.NONZERO else "position"
@@ -137,7 +138,9 @@ def inverse_identity(check: Check) -> None:
         lf0 = LinearForms({a: 0 for a in atoms}, atoms, {})
         forms = comparison_forms(lf0, [z_term, m_term] + ([valid_t] if valid_t is not None else []))
 
-        def valid(lf, valid_t=valid_t) -> bool:  # type: ignore[no-untyped-def]
+        def valid(lf, valid_t=valid_t, Y=Y, H=H) -> bool:  # type: ignore[no-untyped-def]
+            if not 0 < lf.val[Y] < lf.val[H]:
+                return False  # the statement quantifies over degrees strictly between 0 and the height
             return valid_t is None or OrderEval(p, lf, leaf_env(lf)).ev(valid_t) == frozenset({True})
 
         short = {Y: "y", H: "h", ZERO_: "0", **{a: a[2] for a in atoms if a[0] == "attr"}}
